@@ -32,6 +32,7 @@ type KnownOutcome struct {
 }
 
 type Case struct {
+	Tile    *TileSpec      `json:"tile"` // tiling law: inputs to repeat along axis 0 (exec_tile.go)
 	Prop    string         `json:"prop"`
 	Fam     string         `json:"fam"`
 	Kind    string         `json:"kind"` // op | helper | decode | gate | registry | model | sig | load | ...
